@@ -30,6 +30,16 @@ CHECKS = {
         design_ref="DESIGN.md 7/C04",
         note="E3 (flag judged as variable); failover switched off in these scenarios; 7 genuine findings listed",
         technique="TLA+ model of the update with crash/failure at every label (TLC) + TLC validation of real activations"),
+    "C05": dict(
+        category="model_checking",
+        text="FailoverGate.tla states the eight gates over what the filing manager could observe; TLC checks a transcription of "
+             "stateManager/approveFailover (both filing sites) against it on the complete product (55,296 cells). The real "
+             "stateManager runs 13-round histories on the fakes for the all-open cell, every single-gate-closed cell and a "
+             "random product incl. health flapping and manager changes; every creation of an automatic request and every "
+             "suspicious-master activation is projected to a row and judged by TLC (GateRows.tla).",
+        design_ref="DESIGN.md 7/C05",
+        note="observations read from the tree at activation start; delay clock per manager process",
+        technique="TLA+ gate table (TLC exhaustive) + TLC validation of filings recorded from real manager histories"),
     "C06": dict(
         category="model_checking",
         text="Request lifecycle: Switchover.tla (Start/Fail/Finish/Reject, attempt counter, limit) is model-checked with "
